@@ -37,6 +37,9 @@ pub struct Case {
     /// descending id order [12, (9), 7, 3] (the constraint list is a set, not a sorted sequence)
     #[serde(default)]
     pub con_layout: u8,
+    /// kind given to `continuous_var`: 3 = continuous, 5 = semi-continuous; 0 = by the parameter's parity
+    #[serde(default)]
+    pub continuous_kind: i32,
 }
 
 const CID: u64 = 3;
@@ -106,7 +109,20 @@ fn build(case: &Case) -> InstRep {
             continue;
         }
         // continuous, or (for even parameters) semi-continuous: neither can be matched by an integer slack
-        let k = if *id == case.continuous_var { if case.param % 2 == 1 { KIND_CONTINUOUS } else { 5 } } else { *kind };
+        let k = if *id == case.continuous_var {
+            match case.continuous_kind {
+                0 => {
+                    if case.param % 2 == 1 {
+                        KIND_CONTINUOUS
+                    } else {
+                        5
+                    }
+                }
+                k => k,
+            }
+        } else {
+            *kind
+        };
         let b = if *kind == KIND_BINARY && *id % 2 == 1 { None } else { Some((*lo as f64, *up as f64)) };
         fvars.push(VarRep::new(*id, k, b));
     }
@@ -593,6 +609,7 @@ pub fn run(ctx: &Ctx) -> Finish {
                             second: false,
                             undefined_var: 0,
                             con_layout: ((bi + i) % 2) as u8,
+                            continuous_kind: 0,
                         };
                         if method == "convert" && (bi + i) % 4 == 1 {
                             let mut c2 = case.clone();
@@ -621,9 +638,12 @@ pub fn run(ctx: &Ctx) -> Finish {
                                 check_case(l, &c);
                             }
                             for v in &vars {
-                                let mut c = case.clone();
-                                c.continuous_var = v.0;
-                                check_case(l, &c);
+                                for ck in [KIND_CONTINUOUS, 5] {
+                                    let mut c = case.clone();
+                                    c.continuous_var = v.0;
+                                    c.continuous_kind = ck;
+                                    check_case(l, &c);
+                                }
                                 let mut c = case.clone();
                                 c.undefined_var = v.0;
                                 check_case(l, &c);
